@@ -25,20 +25,32 @@ impl CommandParser {
         file_path: &Path,
         type_resolver: &mut TypeResolver,
     ) -> Result<Vec<CommandInfo>, Box<dyn std::error::Error>> {
-        let commands = ast
-            .items
-            .iter()
-            .filter_map(|item| {
-                if let syn::Item::Fn(func) = item {
-                    if self.is_tauri_command(func) {
-                        return self.extract_command_info(func, file_path, type_resolver);
+        let mut commands = Vec::new();
+        self.extract_commands_from_items(&ast.items, file_path, type_resolver, &mut commands);
+        Ok(commands)
+    }
+
+    /// Commands among `items`, those of inline modules (`mod commands { .. }`) included
+    fn extract_commands_from_items(
+        &self,
+        items: &[syn::Item],
+        file_path: &Path,
+        type_resolver: &mut TypeResolver,
+        commands: &mut Vec<CommandInfo>,
+    ) {
+        for item in items {
+            match item {
+                syn::Item::Fn(func) if self.is_tauri_command(func) => {
+                    commands.extend(self.extract_command_info(func, file_path, type_resolver));
+                }
+                syn::Item::Mod(item_mod) => {
+                    if let Some((_, inner)) = &item_mod.content {
+                        self.extract_commands_from_items(inner, file_path, type_resolver, commands);
                     }
                 }
-                None
-            })
-            .collect();
-
-        Ok(commands)
+                _ => {}
+            }
+        }
     }
 
     /// Check if a function is a Tauri command
